@@ -9,6 +9,7 @@ import (
 	"testing"
 
 	"github.com/spikeekips/mitum/base"
+	"github.com/spikeekips/mitum/isaac"
 	"github.com/spikeekips/mitum/zzverif/vlib"
 	"github.com/spikeekips/mitum/zzverif/vsched"
 )
@@ -18,7 +19,7 @@ import (
 //
 // Threads on one real Center (LeveldbPermanent, TempLeveldb, in-memory goleveldb):
 //
-//	reader  two consecutive reads of the same thing (LastBlockMap / State(A) / State(B) / LastNetworkPolicy)
+//	reader  two consecutive reads of the same thing (LastBlockMap / State(A) / State(B) / State(network policy) / LastNetworkPolicy)
 //	merger  Center.mergePermanent, then Center.cleanRemoved(limit)    (the body of the ticker loop; the loop itself is not run)
 //	writer  Center.MergeBlockWriteDatabase(next block, written before the exploration starts)
 //
@@ -38,12 +39,13 @@ type c19cScenario struct {
 	initial string // kinds of the committed blocks, all in temps, e.g. "GS"
 	merged  int    // how many of them are merged into the permanent database before the exploration
 	next    byte   // kind of the block the writer commits
-	read    string // lastmap | stateA | stateB | policy
+	read    string // lastmap | stateA | stateB | statePolicy (State of the network policy key) | policy (LastNetworkPolicy)
 	clean   int    // limit of cleanRemoved
+	writer  bool   // with the writer thread (otherwise reader || merger only)
 }
 
 func (c c19cScenario) id() string {
-	return fmt.Sprintf("%s|initial=%s|merged=%d|next=%c|read=%s|clean=%d", c.name, c.initial, c.merged, c.next, c.read, c.clean)
+	return fmt.Sprintf("%s|initial=%s|merged=%d|next=%c|writer=%v|read=%s|clean=%d", c.name, c.initial, c.merged, c.next, c.writer, c.read, c.clean)
 }
 
 type c19cRead struct {
@@ -136,9 +138,15 @@ func c19cBuild(env *vfEnv, c c19cScenario) vsched.Scenario {
 			return a["State("+vfKeyA+")"]
 		case "stateB":
 			return a["State("+vfKeyB+")"]
+		case "statePolicy":
+			return a["State("+isaac.NetworkPolicyStateKey+")"]
 		default:
 			return a["LastNetworkPolicy()"]
 		}
+	}
+
+	if !c.writer {
+		after = m
 	}
 
 	before, afterAnswer := answer(&m), answer(&after)
@@ -152,10 +160,14 @@ func c19cBuild(env *vfEnv, c c19cScenario) vsched.Scenario {
 			}
 
 			return env.mapName(mp), nil
-		case "stateA", "stateB":
+		case "stateA", "stateB", "statePolicy":
 			key := vfKeyA
-			if c.read == "stateB" {
+
+			switch c.read {
+			case "stateB":
 				key = vfKeyB
+			case "statePolicy": // only the oldest temp (the one the merger moves) has it
+				key = isaac.NetworkPolicyStateKey
 			}
 
 			st, found, err := db.center.State(key)
@@ -212,8 +224,13 @@ func c19cBuild(env *vfEnv, c c19cScenario) vsched.Scenario {
 		}
 	}
 
+	roots := []func(){reader, merger}
+	if c.writer {
+		roots = append(roots, writer)
+	}
+
 	return vsched.Scenario{
-		Roots: []func(){reader, merger, writer},
+		Roots: roots,
 		Outcome: func(*vsched.Exec) string {
 			var l []string
 
@@ -254,7 +271,7 @@ func c19cBuild(env *vfEnv, c c19cScenario) vsched.Scenario {
 				allowed := []string{before, afterAnswer}
 
 				switch {
-				case r.ret < o.writeCall:
+				case !c.writer, r.ret < o.writeCall:
 					allowed = []string{before}
 				case r.call > o.writeRet:
 					allowed = []string{afterAnswer}
@@ -309,22 +326,39 @@ func TestVerifC19S(t *testing.T) {
 	var cfgs []c19cScenario
 
 	for _, clean := range []int{3, 0} {
-		for _, read := range []string{"lastmap", "stateA", "stateB", "policy"} {
-			cfgs = append(cfgs,
-				c19cScenario{name: "two-temps", initial: "GS", merged: 0, next: 'S', read: read, clean: clean},
-				c19cScenario{name: "perm+two-temps", initial: "GSS", merged: 1, next: 'S', read: read, clean: clean},
-			)
+		// reader || merger || writer: the answer changes while the oldest temp moves
+		for _, read := range []string{"lastmap", "stateA"} {
+			cfgs = append(cfgs, c19cScenario{name: "two-temps", initial: "GS", next: 'S', read: read, clean: clean, writer: true})
 
-			if r.Thorough() {
+			if clean == 0 || r.Thorough() {
+				cfgs = append(cfgs, c19cScenario{name: "perm+two-temps", initial: "GSS", merged: 1, next: 'S', read: read, clean: clean, writer: true})
+			}
+		}
+
+		// reader || merger: the key is only in the temp that moves (network policy state: only in G; B: only in block 1)
+		cfgs = append(cfgs,
+			c19cScenario{name: "two-temps", initial: "GS", next: 'S', read: "statePolicy", clean: clean},
+			c19cScenario{name: "two-temps", initial: "GO", next: 'S', read: "stateA", clean: clean},
+			c19cScenario{name: "perm+two-temps", initial: "GSO", merged: 1, next: 'S', read: "stateB", clean: clean},
+			c19cScenario{name: "perm+two-temps", initial: "GSP", merged: 1, next: 'S', read: "stateA", clean: clean},
+		)
+
+		if r.Thorough() {
+			for _, read := range []string{"lastmap", "stateA", "stateB", "statePolicy", "policy"} {
 				cfgs = append(cfgs,
-					c19cScenario{name: "two-temps-policy", initial: "GP", merged: 0, next: 'P', read: read, clean: clean},
+					c19cScenario{name: "two-temps-policy", initial: "GP", next: 'P', read: read, clean: clean, writer: true},
 					c19cScenario{name: "perm+three-temps", initial: "GSPS", merged: 1, next: 'S', read: read, clean: clean},
 				)
 			}
+
+			cfgs = append(cfgs,
+				c19cScenario{name: "two-temps", initial: "GS", next: 'S', read: "stateB", clean: clean, writer: true},
+				c19cScenario{name: "two-temps", initial: "GS", next: 'S', read: "statePolicy", clean: clean, writer: true},
+			)
 		}
 	}
 
-	r.Rule("per scenario (initial chain x kind of the new block x kind of read x cleanRemoved limit) every interleaving of reader (2 reads) || merger (mergePermanent; cleanRemoved) || writer (MergeBlockWriteDatabase) and of the job goroutines Center.dig / the permanent merge spawn, within the preemption bound; non-trivial = a scenario in which more than one read outcome class was observed")
+	r.Rule("per scenario (initial chain x kind of the new block x kind of read x cleanRemoved limit x with/without writer) every interleaving of reader (2 reads) || merger (mergePermanent; cleanRemoved) [|| writer (MergeBlockWriteDatabase)] and of the job goroutines Center.dig / the permanent merge spawn, within the preemption bound; non-trivial = a scenario in which more than one read outcome class was observed")
 	r.Assume("goleveldb, gcache and zerolog run as atomic steps of the calling thread; state caches are off (their map-ordered traversal would make the schedule depend on Go's map order); data races are invisible to the cooperative scheduler")
 	r.Set("preemption_bound", bound)
 	r.Set("scenarios_enumerated", len(cfgs))
